@@ -67,6 +67,7 @@ let show_rec = function
 (* ---- ops *)
 type o = P of int list * v | G of int list | R | K of int | C of n     (* C mb: close, reopen with capacity mb *)
        | B of int * int                                                  (* B (count, seed): a bulk of tiny far items *)
+       | X of int list * v                                               (* X (raw key, value): a foreign entry written into the database *)
 let parse_ops s =
   if s = "." then [] else
   List.map (fun o -> match split ',' o with
@@ -76,6 +77,7 @@ let parse_ops s =
     | ["c"; mb] -> (match n_of_dec_opt mb with Some m -> C m | None -> failwith "op")
     | ["k"; c] -> K (int_of_string c)
     | ["b"; n; sd] -> B (int_of_string n, int_of_string sd)
+    | ["x"; k; vl] -> X (Util.bytes_of_hex k, parse_val vl)
     | _ -> failwith "op") (split ';' s)
 (* item i of a bulk, as harness/c04.go bulkItem: key f0|i>>8, i&0xff, seed, 0.. xor node; value of (i*7+seed) mod 17 bytes *)
 let bulk_item node seed i : int list * v =
@@ -122,6 +124,7 @@ let model_run dec (capmb : n) node ops =
           | _ -> ()
         done;
         (Printf.sprintf "b%d" !acc, !cur)
+      | X _ -> ("-", Ok !y)       (* outside the model: only f05 lines contain it, and those are not compared with the model *)
       | R -> ("-", step vlen vhead8 dec !y OReopen)
       | K c -> ("-", step vlen vhead8 dec !y (OCrash (nat_ c)))
       | C mb ->
@@ -516,6 +519,54 @@ let lin_search (capmb : n) node puts evs fin : bool * bool * int * int =
 (* ---------------- handler *)
 let handle fields impl : string option * string list =
   match fields with
+  | ["rderr05"; capmb; node; opss] ->
+    (* a restart during which the size record cannot be read (I/O error): NewStorage must refuse to start - it must not
+       take the store for a fresh one - and a later healthy restart finds everything as it was.  Model: open is not
+       reached (the database read fails), nothing changes; the final observation is the model's reopen. *)
+    let capmb = (match n_of_dec_opt capmb with Some c -> c | None -> zero) and node = Util.bytes_of_hex node and ops = parse_ops opss in
+    let ids = pool ops in
+    let y = ref (init capmb k_contentDeletionPPM (b node)) in
+    List.iter (fun o -> match o with
+      | P (id, x) -> (match step vlen vhead8 le_dec !y (OPut (b id, x)) with Ok y' -> y := y' | _ -> ())
+      | _ -> ()) ops;
+    let m = match step vlen vhead8 le_dec !y OReopen with
+      | Ok y' -> "openerr " ^ observe "-" y' ids
+      | _ -> "openerr model-open-fails" in
+    let mons = match split ' ' impl with
+      | [outcome; fin] ->
+        (if starts outcome "started" then
+           (match split ',' outcome with
+            | [_; cnt; rad] ->
+              let held_model = held vlen !y.mem in
+              [Printf.sprintf "reopen-with-read-error-starts-empty counter=%s radius=%s bytes-held-before=%s" cnt rad (sd held_model)]
+            | _ -> ["reopen-with-read-error-starts " ^ outcome])
+         else if outcome <> "openerr" then ["reopen-with-read-error-outcome-unparsable " ^ outcome] else []) @
+        (match parse_obs ("ok " ^ fin) with
+         | Some [ob] ->
+           (if has_rec ob && rec_n ob <: ob.held then [Printf.sprintf "size-record-below-bytes-present-after-read-error-restart rec=%s held=%s" ob.recs (sd ob.held)] else []) @
+           (if ob.recs = "none" && ob.held >: zero then ["size-record-missing-after-read-error-restart"] else [])
+         | _ -> ["read-error-restart-observation-unparsable"])
+      | _ -> ["read-error-restart-run-failed " ^ (if String.length impl > 100 then String.sub impl 0 100 else impl)] in
+    (Some m, mons)
+  | ["f05"; capmb; node; opss] ->
+    (* a database that also holds a foreign key (not 32 bytes): outside the model, no comparison.  Accounting monitors
+       on the implementation's observations: whatever Put returned - also an error out of a pruning pass that failed
+       AFTER the item had been committed - the usage figure in memory and on disk covers the items held *)
+    let ops = parse_ops opss in
+    ignore capmb; ignore node;
+    (match split_impl impl, parse_obs impl with
+     | Some (_, _, _), Some obs ->
+       let foreign = ref zero in
+       let mons = ref [] in
+       List.iteri (fun i (o, ob) ->
+         (match o with X (k, x) -> foreign := !foreign +: n_ (List.length k + vlen_i x) | _ -> ());
+         let items = N.sub ob.held !foreign in
+         if items >: ob.cnt then mons := Printf.sprintf "counter-below-bytes-present step=%d counter=%s items-held=%s" i (sd ob.cnt) (sd items) :: !mons;
+         if has_rec ob && items >: rec_n ob then mons := Printf.sprintf "size-record-below-bytes-present step=%d record=%s items-held=%s" i ob.recs (sd items) :: !mons;
+         if has_rec ob && not (N.eqb (rec_n ob) ob.cnt) && ob.res <> "err" then mons := Printf.sprintf "size-record-differs-from-counter step=%d record=%s counter=%s" i ob.recs (sd ob.cnt) :: !mons)
+         (List.combine (take_l (List.length obs) ops) obs);
+       (None, List.rev !mons)
+     | _ -> (None, ["foreign-key-history-unparsable " ^ (if String.length impl > 100 then String.sub impl 0 100 else impl)]))
   | ["y04"; capmb; node; opss] ->
     let capmb = (match n_of_dec_opt capmb with Some c -> c | None -> zero) and node = Util.bytes_of_hex node and ops = parse_hops opss in
     let pobs = parse_obs impl in
@@ -674,6 +725,22 @@ let handle fields impl : string option * string list =
             (if small && ob.held >: cap then [Printf.sprintf "held-exceeds-capacity-after-quiescence held=%s cap=%s" (sd ob.held) (sd cap)] else [])
           | _ -> ["concurrent-history-final-observation-unparsable"]) in
        (Some m, mons))
+  | ["rpc06"; _key; radius; dists] ->
+    (* the Store RPC over a backend that accepts everything: its verdict must be the in-range rule of the property
+       (XOR distance, big-endian, strictly below the advertised radius), evaluated by the extracted in_range_spec *)
+    (match split ' ' impl with
+     | ["ok"; nid; verdicts] when is_hex radius ->
+       let node = b (Util.bytes_of_hex nid) and rad = n_hex radius in
+       let ds = split ',' dists and vs = split ',' verdicts in
+       if List.length ds <> List.length vs then (None, ["store-rpc-observation-count"]) else
+       let expect = List.map (fun d ->
+         let id = List.map2 (fun x y -> x lxor y) (Util.bytes_of_hex d) (ub node) in
+         if in_range_spec node rad (b id) then "1" else "0") ds in
+       let mons = List.concat (List.mapi (fun i ((d, v), e) ->
+         if v <> e then [Printf.sprintf "store-rpc-disagrees-with-in-range-rule #%d distance=%s radius=%s rpc=%s rule=%s" i d radius v e] else [])
+         (List.combine (List.combine ds vs) expect)) in
+       (Some ("ok " ^ nid ^ " " ^ String.concat "," expect), mons)
+     | _ -> (Some "ok <node id> <verdicts>", ["store-rpc-run-failed-or-unparsable " ^ (if String.length impl > 100 then String.sub impl 0 100 else impl)]))
   | ["node06"; _capmb; _key; opss] ->
     (* node level: PortalProtocol.InRange (the rule of the Store RPC and, through p.Radius(), of the offer filters) must
        give the verdict of the store's own admission for the same id, and the radius the node works with must be the
